@@ -108,6 +108,13 @@ func (w *c12World) publish(ver int) {
 		// get different verdicts from partly shared intermediate results.
 		if k == 0 {
 			text += "||ads.multi-shared.com^\n||multi-shared.com^\n/^ads\\./\n"
+			// (How many rules match decides how much room the slice of the
+			// shared result has beyond its length; it varies with the
+			// version.)
+			more := []string{"|ads.multi-shared.com^", "/multi-shared/", "||ads.multi-shared.*^", "ads.multi-shared.com^", "/shared\\.com/"}
+			for _, r := range more[:ver%(len(more)+1)] {
+				text += r + "\n"
+			}
 		} else {
 			text += "@@||ads.multi-shared.com^\n"
 		}
@@ -273,7 +280,12 @@ func genHost(t *kernel.Tape, ver int, rs []*requester) (host string) {
 	}
 }
 
-func runC12(s *kernel.Sim, cfg string) {
+func runC12(s *kernel.Sim, cfg string) { runC12For(s, "C12", cfg) }
+
+// runC12For runs a sub-batch on behalf of property prop: the concurrent
+// requesters of "concq" are also C07's subject (each response is the one the
+// same request would get if it were processed alone).
+func runC12For(s *kernel.Sim, prop, cfg string) {
 	t := s.T
 	dir, err := os.MkdirTemp(os.TempDir(), "fltsim")
 	if err != nil {
@@ -298,7 +310,13 @@ func runC12(s *kernel.Sim, cfg string) {
 	s.Uninstall()
 
 	rs := genRequesters(t)
-	w.publish(1)
+	first := 1
+	if cfg == "concq" {
+		// The lists of every version differ in how many of their rules match
+		// the shared hosts.
+		first = t.Range(1, 6, "first-version")
+	}
+	w.publish(first)
 	w.refresh(true, "")
 
 	if cfg == "concq" {
@@ -315,7 +333,7 @@ func runC12(s *kernel.Sim, cfg string) {
 			rq.conf.Custom.Enabled, rq.conf.Custom.Rules = false, nil
 		}
 		s.Install()
-		runC12ConcurrentQueries(s, w, rs)
+		runC12ConcurrentQueries(s, prop, w, rs)
 
 		return
 	}
@@ -530,7 +548,11 @@ func runC12Concurrent(s *kernel.Sim, w *c12World, rs []*requester) {
 // the stateless twin gives the same requester for the same question: results
 // held in the caches are shared between requests and must not be changed by
 // any of them.
-func runC12ConcurrentQueries(s *kernel.Sim, w *c12World, rs []*requester) {
+func runC12ConcurrentQueries(s *kernel.Sim, prop string, w *c12World, rs []*requester) {
+	class, witness := "C12/cache-visible", "verdict under concurrent requests differs from the stateless twin's"
+	if prop == "C07" {
+		class, witness = "C07/filter-verdict", "verdict under concurrent requests of several profiles is not the one the request gets alone"
+	}
 	t := s.T
 	type rec struct {
 		rq   *requester
@@ -573,7 +595,7 @@ func runC12ConcurrentQueries(s *kernel.Sim, w *c12World, rs []*requester) {
 		return
 	}
 	if s.Stuck {
-		s.Failf("C12/stuck", "filter storage deadlocked", "stuck")
+		s.Failf(prop+"/stuck", "filter storage deadlocked", "stuck")
 
 		return
 	}
@@ -587,7 +609,7 @@ func runC12ConcurrentQueries(s *kernel.Sim, w *c12World, rs []*requester) {
 			s.MarkNontrivial()
 		}
 		if r.got != want {
-			s.Failf("C12/cache-visible", "verdict under concurrent requests differs from the stateless twin's",
+			s.Failf(class, witness,
 				"%s: %s asks %s/%d:\n with caches, concurrently: %s\n stateless twin:            %s", r.task, r.rq.name, r.host, r.qt, r.got, want)
 
 			return
